@@ -126,7 +126,8 @@ func (s *compositeSchedule) Left() int {
 		s.rwMu.Unlock()
 		return s.Left()
 	}
-	if left < 0 {
+	if left < 0 || leftAfter < 0 {
+		// Tokens of current or of some following schedule are unknown.
 		return -1
 	}
 	return left + leftAfter
